@@ -107,8 +107,14 @@ def real_runs(chk):
             s.add(SearchDef(r'hello (\d+)', tag='t'), os.path.join(d, '*'))
             # restrict to f files: register only the first f
             s = FileSearcher(max_parallel_tasks=m)
+            # one or several searches per file (the dispatch must depend on
+            # the number of FILES only)
+            ndefs = 1 + (m + f + c) % 3
+            sds = [SearchDef(r'hello (\d+)', tag=f't{j}')
+                   for j in range(ndefs)]
             for p in paths[:f]:
-                s.add(SearchDef(r'hello (\d+)', tag='t'), p)
+                for sd_ in sds:
+                    s.add(sd_, p)
             res = s.run()
             S.os.cpu_count = real_cpu
             lines = open(rec).read().split('\n')[:-1] \
@@ -120,7 +126,7 @@ def real_runs(chk):
                         'in_process': set(pids) == {parent},
                         'forks_from_parent': forks[0],
                         'each_once': ran == sorted(paths[:f]),
-                        'results': len(res),
+                        'results': len(res), 'defs': ndefs,
                         'completed': s.stats['jobs_completed'],
                         'total': s.stats['total_jobs']})
     finally:
